@@ -93,6 +93,9 @@ def main(tier):
     # line-splitter theorems through process_line to the block tree; the model they talk about is tied here
     from checks import layerc
     layerc.blocks(c, tier, 0.3 if quick else 0.15)
+    # the whole pipeline up to the tree: Parse_line_invariance / Parse_crlf / Parse_cr / Parse_final_newline / Parse_nul
+    # (Props/Parse.v) about Model/Parse.v parse_document_model, tied end to end to parse_document here
+    layerc.whole(c, tier, 0.25 if quick else 0.15, more=True)
 
     # ================================================================== correspondence feed.lines
     exh = exhaustive(6 if quick else 7)
@@ -360,7 +363,7 @@ def main(tier):
     c.cov["input_distribution"] = {"documents": len(docs), "rewritten_copies": len(variants), "metamorphic_pairs": len(jobs), "fixed_inputs": len(fixed),
                                    "constructs_in_documents": feats, "doc_len_hist": _hist([len(d) for d in docs])}
     c.cov["partial_clauses"] = [
-        "equal lines + equal budget => equal HTML is not proved (the block and inline parsers are not modelled): factorisation theorems quantify over the rest of the pipeline; checked by the metamorphic search",
+        "equal lines + equal budget => equal TREE is proved for the whole parser as one function (Props/Parse.v Parse_line_invariance: without a front matter delimiter, lines x = lines y and max_ref_size(total_size x) = max_ref_size(total_size y) give parse_document_model o u x = parse_document_model o u y; Parse_crlf / _cr / _final_newline / _nul instantiate it; the model is tied end to end to parse_document, correspondence parser.whole); equal tree => equal HTML holds for the HTML renderer MODEL (a function of the tree and the options), whose tie to format_html is C02/C10's; the end-to-end HTML identity is still checked by the metamorphic search",
         "empty text vs one line feed: different line sequences (C08_lines_final_nl_refuted); the HTML identity is observed only",
         "BOM: proved that the block parser reads the same bytes from the first line's starting offset (C08_seen_lines_bom_partial); that offset 3 behaves like a stripped prefix inside the block parser is observed only; refuted for texts that already start with a mark (class bom_on_bom) and the sourcepos columns count the mark (class bom_sourcepos)",
         "front matter is outside the model of this property (C20 proves the splitter is the line-based specification for LF, CR LF and bare CR; the former class front_matter_cr_only, DESIGN F11, is repaired and its witness is replayed)",
